@@ -738,10 +738,18 @@ pub struct KyteaCase {
 pub fn resolve_kytea(raw: &RawKytea) -> KyteaCase {
     // character map: type letters first (as in real files), then text characters, then the
     // tolerated 0x04 letter
+    // (one file in three has the map in another order, ending in the text character most n-grams
+    // and words use: the last number of the map is a valid character number)
     let mut char_map: Vec<char> = TYPE_LETTERS.to_vec();
-    char_map.extend_from_slice(TEXT_CHARS);
-    char_map.push('\u{4}');
-    char_map.push('t'); // used by tag strings
+    if raw.shuffle.get(1).copied().unwrap_or(0) % 3 == 1 {
+        char_map.insert(0, '\u{4}');
+        char_map.insert(0, 't');
+        char_map.extend(TEXT_CHARS.iter().rev());
+    } else {
+        char_map.extend_from_slice(TEXT_CHARS);
+        char_map.push('\u{4}');
+        char_map.push('t'); // used by tag strings
+    }
     let idx = |c: char| (char_map.iter().position(|&x| x == c).unwrap() + 1) as u16;
     let text_idx: Vec<u16> = TEXT_CHARS.iter().map(|&c| idx(c)).collect();
     let type_idx: Vec<u16> = TYPE_LETTERS.iter().map(|&c| idx(c)).collect();
